@@ -39,6 +39,9 @@ SPECS = {
     "overlap": dict(vars={"x1": ([0, 1], "plain", 0), "x2": ([0, 1], "plain", 0), "x3": ([0, 1], "plain", 1)},
                     cons=[["x1", "x2"], ["x1", "x2", "x3"]]),
     "double_pair": dict(vars={"x1": ([0, 1], "plain", 0), "x2": ([0, 1], "plain", 1)}, cons=[["x1", "x2"], ["x2", "x1"]]),
+    # a variable whose only constraint is unary: it has constraints but no neighbour
+    "iso_unary": dict(vars={"x1": ([0, 1], "plain", 0), "x2": (["a", "b"], "plain", "b"), "x3": ([7, 0, 4], "plain", 7)},
+                      cons=[["x1", "x2"], ["x3"]]),
     "iso2": dict(vars={"x1": ([0, 1], "plain", 0), "x2": (["a", "b"], "plain", "b"), "x3": (["r", "g"], "func")}, cons=[["x1", "x2"]]),
     "star_cost": dict(vars={"x1": ([0, 1], "func", 0), "x2": ([0, 1], "plain", 0), "x3": ([0, 1], "func", 1)},
                       cons=[["x1", "x2"], ["x1", "x3"]]),
@@ -293,6 +296,7 @@ def _shapes_mgm(tier, prop=None):
         dict(spec="chain3", stop_cycle=2, modes=["min"], algo_params=dict(break_mode="random")),
     ]
     s += [dict(spec="chain3", stop_cycle=2, modes=["min"], warm_up=True), dict(spec="triangle", stop_cycle=2, modes=["max"], warm_up=True)]
+    s += [dict(spec="iso_unary", stop_cycle=2)]
     # equal domains: the values of two different neighbours can be confused (value-keyed caches), needs the neighbours'
     # messages to arrive in another order than in an earlier cycle
     s += [dict(spec="chain3_free", stop_cycle=3, modes=["min"], policy="random", sched_seed=i, search_paths=6000) for i in (1, 2)]
@@ -377,6 +381,7 @@ def _shapes_mgm2(tier, prop=None):
     for off in ([], ["x1"]):
         q.append(dict(algo="mgm2", spec="tri_nary", stop_cycle=2, modes=["min"], offerers=off))
     q.append(dict(algo="mgm2", spec="iso", stop_cycle=2, offerers=[]))
+    q.append(dict(algo="mgm2", spec="iso_unary", stop_cycle=2, offerers=[]))
     q.append(dict(algo="mgm2", spec="double_pair", stop_cycle=2, modes=["min"], offerers=["x1"]))
     q.append(dict(algo="mgm2", spec="overlap", stop_cycle=2, modes=["min"], offerers=[]))
     q.append(dict(algo="mgm2", spec="chain3", stop_cycle=2, modes=["min"], offerers=["x3"], start_order="rev", policy="lifo", interleave_start=True))
